@@ -44,7 +44,7 @@ func regServices() []ServiceSpec {
 	}
 	return []ServiceSpec{
 		{Pkg: "vg", Name: "A", Methods: []MethodSpec{{Name: "m1", Rule: body("/g/a/m1/{s}")}, {Name: "m2", Rule: body("/g/a/m2")}}},
-		{Pkg: "vg", Name: "B", Methods: []MethodSpec{{Name: "m1", Rule: body("/g/b/{s}:go")}}},
+		{Pkg: "vg", Name: "B", Methods: []MethodSpec{{Name: "m1", Rule: body("/g/b/{s}:go")}, {Name: "m2", Rule: body("/g/a/m1/{s}/b")}}},
 	}
 }
 
@@ -75,7 +75,7 @@ func regFiles() (*protoregistry.Files, map[string]protoreflect.ServiceDescriptor
 			panic(err)
 		}
 		regSchema.files = files
-		regSchema.sds = map[string]protoreflect.ServiceDescriptor{"A": sds[0], "B": sds[1]}
+		regSchema.sds = map[string]protoreflect.ServiceDescriptor{"A": sds[0], "B": sds[1], "Bad": sds[2]}
 	})
 	return regSchema.files, regSchema.sds
 }
@@ -149,10 +149,12 @@ type ProbeEv struct {
 
 var regMethods = []struct{ name, full, path string }{
 	{"A.m1", "/vg.A/m1", "/g/a/m1/x"}, {"A.m2", "/vg.A/m2", "/g/a/m2"}, {"B.m1", "/vg.B/m1", "/g/b/x:go"},
+	{"B.m2", "/vg.B/m2", "/g/a/m1/x/b"},
 }
 
 // what each backend of the scenario serves (must agree with Registry_Hist.tla)
-var regBackendSvcs = map[string][]string{"local": {"A"}, "c1": {"A"}, "c2": {"A", "B"}, "c3": {"B"}}
+// (cbad serves B and the unregistrable service Bad: RegisterConn(cbad) fails after it has begun to fill its clone)
+var regBackendSvcs = map[string][]string{"local": {"A"}, "c1": {"A"}, "c2": {"A", "B"}, "c3": {"B"}, "cbad": {"B", "Bad"}}
 
 // wideQuery makes URL parameter parsing take milliseconds: it sits between the route match and the handler pick
 var wideQuery = strings.Repeat("r=x&", 20000) + "r=x"
@@ -247,6 +249,7 @@ func probeAll(mux *larking.Mux, caseID, tries int) []interface{} {
 }
 
 type regWorld struct {
+	nfail    int32
 	mux      *larking.Mux
 	backends map[string]*backend
 	conns    map[string]*grpc.ClientConn
@@ -303,6 +306,16 @@ func (w *regWorld) apply(op RegOp, caseID int) OpEv {
 			}
 			ev.OK = ev.Err == ""
 		case "regfail":
+			// every other time through a connection: a backend that serves B (registrable) and Bad (not): the call
+			// fails after it has begun to fill its private clone and must publish nothing of it
+			if atomic.AddInt32(&w.nfail, 1)%2 == 0 {
+				err := w.mux.RegisterConn(ctx, w.conns["cbad"])
+				if err != nil {
+					ev.Err = err.Error()
+				}
+				ev.OK = err == nil
+				return
+			}
 			// a service whose second method carries an invalid rule: the whole registration must fail.
 			// Its first method is valid and lands below the leaf of A.m2 when A is registered.
 			rf, _ := regFiles()
